@@ -43,11 +43,17 @@
        stay direct") — C01_fragment6_static, C01_fragment6_correct, C01_eval_fragment6; the counter
        ((lambda (n) ((lambda (inc) (inc) (inc)) (lambda () (set! n (if n #f #t)) n))) #f) is inside
        the fragment (C01_counter6) (Proofs/FrameSteps5.v, StoreLocal5.v, Closures6.v .. EvalFragment6.v);
+     * the (define (f x1 ... xn) body ...) SPELLING: the compiler treats it, as an M-computation,
+       exactly as (define f (lambda (x1 ... xn) body ...)) with one level of fuel less —
+       C01_define_spelling — and fragment 6's theorems hold for the sugared datum —
+       C01_sugar_compile6, C01_eval_fragment6_sugar(_session) (Proofs/DefineSugar.v, DefineSugar6.v);
+     * VARARG binds the rest parameter to a fresh proper list of the surplus argument values in
+       order — C01_vararg_rest_list (Proofs/VarArgList.v; machine level only);
    together with the scoping theorems of C02, the frame theorems of C04, the
    continuation theorems of C05 and the run-loop theorems of C07/C13.
    OPEN: the semantic compile-correctness theorem for the whole language
-   (C01_compile_correct_stmt): the (define (f x) ...) spelling, internal definitions, variadic
-   lambdas, builtins applied to closures, quasiquote, define-syntax and the derived forms of the
+   (C01_compile_correct_stmt): internal definitions, variadic lambdas (as expressions), the dotted
+   (define (f . args) ...) spelling, builtins applied to closures, quasiquote, define-syntax and the derived forms of the
    prelude are outside the proved fragments. The
    reference semantics used as the spec oracle by the check is lib/scheme_ref.py.  *)
 From Coq Require Import String.
@@ -598,7 +604,10 @@ Proof. vm_compute. repeat split. Qed.
    theorems about the sugared datum).  The spelling with a dotted formal list
    (define (f . args) ...) is NOT the same computation: the "define" arm of the free-symbol analysis
    binds the rest symbol, the "lambda" arm does not.
-   Not covered: internal definitions, variadic lambdas, builtins
+   For variadic lambdas only the machine lemma is proved: C01_vararg_rest_list (VARARG binds the rest
+   parameter to a fresh proper list of the surplus argument values in order); they are not part of
+   the fragments.
+   Not covered: internal definitions, variadic lambdas (as expressions of the fragment), builtins
    applied to closures, closure results in the _done forms, quasiquote, define-syntax, the
    derived forms of the prelude (they are macros: `let`, `begin`, `cond`, ... expand into the core
    forms of the fragments, but the expander is not part of the proved pipeline), builtins with
@@ -1346,3 +1355,74 @@ Example C01_define_spelling_example :
   | _, _ => False
   end.
 Proof. exact DefineSugarBoot.flip6_spelling_run. Qed.
+
+(* ============================================================ VARARG: the contents of the rest list
+   (work package c01e, Proofs/VarArgList.v, VarArgExamples.v).  A lambda with a rest parameter is
+   compiled to VARARG ; ENTER ; body ; RET; C04_vararg_frame (Props/C04.v) gives the frame VARARG
+   leaves on the frame of CALL / TCALL.  Here, as one step of the real machine and with the frame
+   facts repeated: the pointer left in the slot of the rest parameter (base + L) is the head of a
+   FRESH PROPER LIST — every spine cell is allocated by this instruction and was not allocated
+   before — whose elements are the surplus actual arguments (the stack slots base+L .. base+m) in
+   order; every cell allocated before is untouched ([hext]) and the heap invariant is kept.  An
+   element is what Heap::put makes of the stack value ([helem]): a pointer is stored as itself, any
+   other value in an allocated cell holding it. *)
+From MW Require Proofs.VarArgProofs Proofs.VarArgList Proofs.VarArgExamples.
+
+Theorem C01_helem_unfold : forall h a v, VarArgList.helem h a v <->
+  (v = VPtr a \/ ((forall q, v <> VPtr q) /\ allocated h a /\ cell_at h a = v)).
+Proof. intros h a v. reflexivity. Qed.
+Print Assumptions C01_helem_unfold.
+
+Theorem C01_hlist_unfold : forall h0 h p vs, VarArgList.hlist h0 h p vs <->
+  match vs with
+  | [] => allocated h p /\ ~ allocated h0 p /\ cell_at h p = VNil
+  | v :: vs' => exists a d, allocated h p /\ ~ allocated h0 p /\ cell_at h p = VPair a d /\
+                            VarArgList.helem h a v /\ VarArgList.hlist h0 h d vs'
+  end.
+Proof. exact VarArgList.hlist_unfold. Qed.
+Print Assumptions C01_hlist_unfold.
+
+Theorem C01_vararg_rest_list : forall (ob : N -> M vcell) s0 s l m,
+  read_opcode s0 = ROk OVarArg s ->
+  cur_lambda s = ROk l s ->
+  1 <= len (l_args l) -> len (l_args l) - 1 <= m ->    (* at least the fixed arguments *)
+  m + 3 <= sp s -> sget s (sp s - 2) = VArgc m ->       (* the frame CALL / TCALL left *)
+  sp s + 1 < scap s -> heap_inv (hp s) ->
+  let L := len (l_args l) in
+  let base := sp s - 3 - m in
+  exists p s',
+    run_one ob s0 = ROk false s' /\
+    sp s' = base + L + 3 /\ VarArgProofs.same_regs s s' /\
+    (forall j, j + 1 <= base + L -> sget s' j = sget s j) /\
+    sget s' (base + L) = VPtr p /\
+    sget s' (base + L + 1) = VArgc L /\
+    sget s' (base + L + 2) = sget s (sp s - 1) /\
+    sget s' (base + L + 3) = sget s (sp s) /\
+    heap_inv (hp s') /\ QuoteHeapProofs.hext (hp s) (hp s') /\
+    VarArgList.hlist (hp s) (hp s') p (map (fun j => sget s (base + L + N.of_nat j)) (seq 0 (N.to_nat (m + 1 - L)))).
+Proof. exact VarArgList.vararg_step_rest_list. Qed.
+Print Assumptions C01_vararg_rest_list.
+
+(* non-vacuity: the model run on ((lambda (a . rest) rest) 1 2 3) from the empty machine reaches,
+   14 instructions after prepare_eval, the VARARG of the callee in a state that satisfies every
+   hypothesis (3 actual arguments, L = 2) ... *)
+Example C01_vararg_example :
+  prepare_eval VarArgExamples.va_e (vm_empty 8192) = ROk tt VarArgExamples.va_m0 /\
+  RunProofs.steps other_builtin 14 VarArgExamples.va_m0 = Some VarArgExamples.va_s0 /\
+  read_opcode VarArgExamples.va_s0 = ROk OVarArg VarArgExamples.va_s /\
+  cur_lambda VarArgExamples.va_s = ROk VarArgExamples.va_l VarArgExamples.va_s /\
+  len (l_args VarArgExamples.va_l) = 2 /\ 3 + 3 <= sp VarArgExamples.va_s /\
+  sget VarArgExamples.va_s (sp VarArgExamples.va_s - 2) = VArgc 3 /\
+  sp VarArgExamples.va_s + 1 < scap VarArgExamples.va_s /\ heap_inv (hp VarArgExamples.va_s).
+Proof.
+  split; [exact (proj1 VarArgExamples.va_reach)|]. split; [exact (proj1 (proj2 VarArgExamples.va_reach))|].
+  exact VarArgExamples.va_hypotheses.
+Qed.
+(* ... and the evaluations return the rest lists: (2 3), (1 2), (), (3) *)
+Example C01_vararg_example_run :
+  VarArgExamples.result_of VarArgExamples.va_src = VarArgExamples.datum_of (S_ "(2 3)"%string) /\
+  VarArgExamples.result_of (S_ "((lambda args args) 1 2)"%string) = VarArgExamples.datum_of (S_ "(1 2)"%string) /\
+  VarArgExamples.result_of (S_ "((lambda (a . rest) rest) 1)"%string) = VarArgExamples.datum_of (S_ "()"%string) /\
+  VarArgExamples.result_of (S_ "((lambda (a b . rest) rest) 1 2 3)"%string) = VarArgExamples.datum_of (S_ "(3)"%string) /\
+  VarArgExamples.datum_of (S_ "(2 3)"%string) <> None.
+Proof. exact VarArgExamples.va_runs. Qed.
